@@ -24,6 +24,7 @@
     wsfilter_forest wsfilter_forest_whole strip_is_norm_forest_partial html_roundtrip_tree_strip_partial
     xhtml_roundtrip_tree_strip_partial xhtml_roundtrip_tree_qnames_strip_partial
     html_roundtrip_doc_strip_partial xhtml_roundtrip_doc_strip_partial xhtml_roundtrip_doc_readxml_strip_partial
+    preserve_table_is_pre_textarea html_roundtrip_tree_mixed_partial xhtml_roundtrip_tree_mixed_tokens_partial
 -/
 import Genshi.Lemmas.ReaderXhtml
 import Genshi.Lemmas.ReaderTree
@@ -34,6 +35,7 @@ import Genshi.Lemmas.ReaderXmlView
 import Genshi.Lemmas.ReaderDocView
 import Genshi.Lemmas.OutputNoCR
 import Genshi.Lemmas.OutputWsRender
+import Genshi.Lemmas.ReaderTreeMixed
 import Genshi.Lemmas.OutputSafeText
 import Genshi.Lemmas.Output
 import Genshi.Lemmas.OutputFlatten
@@ -583,6 +585,18 @@ example : okList exWsForest = true ∧ forestUniformNs [] exWsForest = true ∧ 
     wsDom .xhtml exWsForest = true ∧ htmlForestOk (normForest .html exWsForest) = true ∧
     xhtmlForestOk (normForest .xhtml exWsForest) = true := by decide
 
+/-- the whitespace-preserving elements `normForest` is stated with (generated from the serializers'
+    `_PRESERVE_SPACE`) are `pre` and `textarea`, un-namespaced and XHTML-namespaced, for html and
+    xhtml alike -/
+def preserveSpec : List (Str × Str) :=
+  [([], ['p', 'r', 'e']), ([], ['t', 'e', 'x', 't', 'a', 'r', 'e', 'a']),
+   (xhtmlNs, ['p', 'r', 'e']), (xhtmlNs, ['t', 'e', 'x', 't', 'a', 'r', 'e', 'a'])]
+
+theorem preserve_table_is_pre_textarea :
+    (∀ m ∈ [Method.html, Method.xhtml],
+      (preserveElems m).all (fun p => preserveSpec.contains p) = true ∧
+      preserveSpec.all (fun p => (preserveElems m).contains p) = true) := by decide
+
 /-- **`strip_whitespace=True` is `strip_whitespace=False` on the normalised forest.**  For every
     method, cache setting and forest `ns` in one namespace `u` inside `wsDom` (text leaves are plain,
     no CDATA markers, script / style under html hold only text): the serialisation with the
@@ -654,6 +668,71 @@ example : assemble (forestPieces (normForest .html exWsForest)) =
      .start ['b', 'r'] [] false, .text [' ', '\n'], .end_ ['p', 'r', 'e'],
      .start ['s', 'c', 'r', 'i', 'p', 't'] [] false, .text ['1', '<', '2', '\n'], .end_ ['s', 'c', 'r', 'i', 'p', 't'],
      .text ['\n', 'b'], .end_ ['p']] := by decide
+
+/-! ### forests that mix namespaces -/
+
+/-- html over forests whose elements are in ARBITRARY namespaces (none of them the XML namespace;
+    builder-style streams without START_NS events — e.g. XHTML elements with un-namespaced
+    children): the flattener writes an `xmlns` declaration (`xmlns=""` included) on every element whose
+    namespace differs from the default namespace in scope (`flatten_forestM`), html drops all of them —
+    the tokens read back are those of the forest with the namespaces forgotten.  Generalises
+    `html_roundtrip_tree_ns_partial` (one namespace). -/
+theorem html_roundtrip_tree_mixed_partial (cache dropd : Bool) (ns : List Node)
+    (hok : okList ns = true) (hns : forestMixedOk ns = true) (hh : htmlForestOk ns = true) :
+    (render .html { strip := false, cache := cache, doctype := none, dropXmlDecl := dropd } (flattenList ns)).bind
+        (tokens false) = some (assemble (forestPieces ns)) := by
+  have hc : render .html { strip := false, cache := cache, doctype := none, dropXmlDecl := dropd } (flattenList ns) =
+      render .html { strip := false, cache := false, doctype := none, dropXmlDecl := dropd } (flattenList ns) := by
+    cases cache
+    · rfl
+    · exact Genshi.Props.C08.render_cache_irrelevant' .html false none dropd (flattenList ns)
+  rw [hc]
+  have hf := filtered_forestM .html dropd none ns hok hns
+  simp only [withDoctype] at hf
+  have hk := htmlOk_forestM [] ns hh
+  have hend : ((forestFm [] ns).foldl htmlEv {}).raw = false := by rw [foldl_htmlEv_raw]; exact hk.2
+  rw [html_render_roundtrip_partial _ _ _ hf hk.1 hend, htmlExpected_eq_assemble, pieces_forestM]
+
+/-- xhtml over the same forests, tokenizer level (before namespace resolution): an element carries
+    `xmlns="its namespace"` as first attribute exactly when its namespace differs from that of its
+    parent (from none at top level) — `forestPiecesXM`; everything else as in the one-namespace case.
+    Additional hypothesis: the namespaces can stand in an attribute value (`forestNsValsOk`).
+    Full statement (not proved): through expat's namespace resolution (`xmlView` with a scope stack:
+    every element read back in its own namespace). -/
+theorem xhtml_roundtrip_tree_mixed_tokens_partial (cache : Bool) (ns : List Node)
+    (hok : okList ns = true) (hns : forestMixedOk ns = true) (hh : xhtmlForestOk ns = true)
+    (hv : forestNsValsOk ns = true) :
+    (render .xhtml { strip := false, cache := cache, doctype := none, dropXmlDecl := true } (flattenList ns)).bind
+        (tokens true) = some (assemble (forestPiecesXM [] ns)) := by
+  have hc : render .xhtml { strip := false, cache := cache, doctype := none, dropXmlDecl := true } (flattenList ns) =
+      render .xhtml { strip := false, cache := false, doctype := none, dropXmlDecl := true } (flattenList ns) := by
+    cases cache
+    · rfl
+    · exact Genshi.Props.C08.render_cache_irrelevant' .xhtml false none true (flattenList ns)
+  rw [hc]
+  have hf := filtered_forestM .xhtml true none ns hok hns
+  simp only [withDoctype] at hf
+  rw [xhtml_render_roundtrip_partial _ _ _ hf (xhtmlOk_forestM ⟨true⟩ [] ns hh hv), xhtmlExpected_eq_assemble,
+    piecesX_forestM]
+
+def exMixed : List Node :=
+  [.elem ⟨xhtmlNs, ['d', 'i', 'v']⟩ []
+    [.elem ⟨[], ['p']⟩ [] [.elem ⟨xhtmlNs, ['b', 'r']⟩ [] [], .leaf (.text ['<'] false)],
+     .elem ⟨xhtmlNs, ['b']⟩ [] [.elem ⟨[], ['i']⟩ [] []]]]
+
+example : okList exMixed = true ∧ forestMixedOk exMixed = true ∧ htmlForestOk exMixed = true ∧
+    xhtmlForestOk exMixed = true ∧ forestNsValsOk exMixed = true ∧ forestUniformNs xhtmlNs exMixed = false := by decide
+
+example : assemble (forestPiecesXM [] exMixed) =
+    [.start ['d', 'i', 'v'] [(xmlns, some xhtmlNs)] false, .start ['p'] [(xmlns, some [])] false,
+     .start ['b', 'r'] [(xmlns, some xhtmlNs)] true, .text ['<'], .end_ ['p'],
+     .start ['b'] [] false, .start ['i'] [(xmlns, some [])] false, .end_ ['i'], .end_ ['b'], .end_ ['d', 'i', 'v']] := by
+  decide
+
+example : (xmlView [] (assemble (forestPiecesXM [] exMixed))) =
+    some [.start ⟨xhtmlNs, ['d', 'i', 'v']⟩ [], .start ⟨[], ['p']⟩ [], .start ⟨xhtmlNs, ['b', 'r']⟩ [],
+      .end_ ⟨xhtmlNs, ['b', 'r']⟩, .text ['<'], .end_ ⟨[], ['p']⟩, .start ⟨xhtmlNs, ['b']⟩ [], .start ⟨[], ['i']⟩ [],
+      .end_ ⟨[], ['i']⟩, .end_ ⟨xhtmlNs, ['b']⟩, .end_ ⟨xhtmlNs, ['d', 'i', 'v']⟩] := by decide
 
 /-- xhtml with CDATA sections (events level): the content of a section is read back verbatim as
     part of the surrounding character data (expat's view with merged text).  Hypotheses
